@@ -417,23 +417,33 @@ func (fr *Frame) assumeWF(v *Val) {
 	if v.t == "" {
 		return
 	}
+	// Guarded by the path condition: the value may have been stored on this
+	// path only (a slice stored after its bounds check is well formed because
+	// of that check), so the fact must not leak into other paths.
+	wfFact := func(f string) {
+		if fr.reach != "" && fr.reach != "true" {
+			fr.vc.fact(implies(fr.reach, f))
+		} else {
+			fr.vc.fact(f)
+		}
+	}
 	switch v.sort {
 	case sInt:
 		if _, _, ok := intRange(v.typ); ok {
-			fr.vc.fact(rangeFact(v.t, v.typ))
+			wfFact(rangeFact(v.t, v.typ))
 		} else {
 			switch v.typ.Underlying().(type) {
 			case *types.Pointer, *types.Map, *types.Chan, *types.Signature:
-				fr.vc.fact(app("<=", "0", v.t))
-				fr.vc.fact(app("<=", v.t, fr.st.alloc))
+				wfFact(app("<=", "0", v.t))
+				wfFact(app("<=", v.t, fr.st.alloc))
 			}
 		}
 	case sSlc:
 		t := v.t
-		fr.vc.fact(and(app("<=", "0", sArr(t)), app("<=", sArr(t), fr.st.alloc), app("<=", "0", sOff(t)), app("<=", "0", sLen(t)), app("<=", sLen(t), sCap(t)),
+		wfFact(and(app("<=", "0", sArr(t)), app("<=", sArr(t), fr.st.alloc), app("<=", "0", sOff(t)), app("<=", "0", sLen(t)), app("<=", sLen(t), sCap(t)),
 			implies(eq(sArr(t), "0"), and(eq(sCap(t), "0"), eq(sOff(t), "0"))), app("<=", sCap(t), "4611686018427387904")))
 	case sIfc:
-		fr.vc.fact(and(app("<=", "0", iTag(v.t)), app("<=", "0", iVal(v.t)), app("<=", iVal(v.t), fr.st.alloc), implies(eq(iTag(v.t), "0"), eq(iVal(v.t), "0"))))
+		wfFact(and(app("<=", "0", iTag(v.t)), app("<=", "0", iVal(v.t)), app("<=", iVal(v.t), fr.st.alloc), implies(eq(iTag(v.t), "0"), eq(iVal(v.t), "0"))))
 	}
 }
 
